@@ -13,8 +13,8 @@ SHARDS = {"quick": 6, "thorough": 16}
 WATCHDOG = {"quick": 1800, "thorough": 7200}
 CASES = {"quick": 150, "thorough": 2000}
 FLOORS = {
-    "quick": {"distinct_nontrivial": 250, "segments_checked": 3000, "cases_with_adjacent_flagged": 150,
-              "cases[ScriptedChangeDetector]": 100, "cases[PELT]": 100, "wrapped_untouched_checks": 800},
+    "quick": {"distinct_nontrivial": 250, "segments_checked": 2000, "cases_with_adjacent_flagged": 150,
+              "cases[ScriptedChangeDetector]": 100, "cases[PELT]": 100, "wrapped_untouched_checks": 400},
     "thorough": {"distinct_nontrivial": 4000, "segments_checked": 50000},
 }
 ANCHORS = [
